@@ -363,7 +363,9 @@ def effectiveDesc (d : DescObj) (kw : DescKw) : ParserArgs :=
     qqDepthMin := qqMin, qqDepthMax := qqMax, qqDepth := qqDepth,
     breakHalves := kw.breakHalves.getD (getB a "break_halves"),
     secWithin := kw.secWithin.getD (getB a "sec_within"),
-    handedDownConfig := Config.toText d.config,
+    -- the stored Config's text; `suppress_lot_divs` (no keyword here, read by the tracts only) is handed down from the
+    -- object's attribute, which also holds what an earlier config said before `.config` was assigned again
+    handedDownConfig := if getB a "suppress_lot_divs" then Config.toText d.config ++ S ",suppress_lot_divs" else Config.toText d.config,
     source := d.source }
 
 def descParse (mc : MC) (uid0 : Nat) (d : DescObj) (kw : DescKw) (commit : Bool)
